@@ -1,3 +1,57 @@
-import Chiritori.Spec.Holds
+import Chiritori.Props.C09
+import Chiritori.Props.C10
+import Chiritori.Lemmas.Decision
+/-
+  C18 — Behaviour is independent of the spelling of delimiters and tag names.
+
+  Full statement: rewriting source and configuration consistently to another delimiter pair / other tag names
+  yields the correspondingly rewritten output (for documents whose text contains no delimiter character).
+  Proved - the three mechanisms the property names, each for all inputs:
+  * delimiters are handled as character sequences: a tag token is `ds ++ body ++ de` whatever the delimiters are
+    (C07 `tag_tokens_delimited`), and the element parser sees only the body (`body_only`: the parse of a token
+    depends on the delimiters only through stripping them once);
+  * pairing depends on names through equality only: the tree of a token list is the stack machine's (C10), which
+    compares names and nothing else;
+  * evaluators are looked up by the configured tag name: `rename_invariant` - renaming both configured names and
+    every element name by an injective map preserves the readiness of every element (`conditionHolds`), the
+    skip test and the strategy choice.
+  Not proved: the end-to-end statement (it needs `tokenize = textbook` on documents free of delimiter characters,
+  i.e. the WellDelimited theorem of C08, and the position bookkeeping of the rewriting).
+-/
 namespace Chiritori.Props.C18
+open Chiritori Chiritori.Spec
+
+/-- the element parser sees the body only -/
+theorem body_only (ds de ds' de' body : List Char) (t t' : Token)
+    (hds : ds ≠ []) (hde : de ≠ []) (hds' : ds' ≠ []) (hde' : de' ≠ []) (hb : body ≠ [])
+    (hk : t.kind = .element) (hk' : t'.kind = .element)
+    (hv : t.value = ds ++ body ++ de) (hv' : t'.value = ds' ++ body ++ de')
+    (h1 : ds.isPrefixOf (body ++ de) = false) (h2 : de.reverse.isPrefixOf body.reverse = false)
+    (h1' : ds'.isPrefixOf (body ++ de') = false) (h2' : de'.reverse.isPrefixOf body.reverse = false) :
+    elparse ds de t = elparse ds' de' t' := by
+  rw [C09.elparse_of_body ds de body t hds hde hb hk hv h1 h2,
+    C09.elparse_of_body ds' de' body t' hds' hde' hb hk' hv' h1' h2']
+
+/-- renaming tag names consistently does not change any readiness decision -/
+theorem rename_invariant (f : List Char → List Char) (hf : ∀ a b, f a = f b → a = b) (cfg : Cfg) (el : Element) :
+    conditionHolds { cfg with tlName := f cfg.tlName, rmName := f cfg.rmName } { el with name := f el.name }
+      = conditionHolds cfg el := by
+  have e1 : (f el.name == f cfg.rmName) = (el.name == cfg.rmName) := by
+    rw [Bool.eq_iff_iff]; simp only [beq_iff_eq]
+    exact ⟨hf _ _, fun h => by rw [h]⟩
+  have e2 : (f el.name == f cfg.tlName) = (el.name == cfg.tlName) := by
+    rw [Bool.eq_iff_iff]; simp only [beq_iff_eq]
+    exact ⟨hf _ _, fun h => by rw [h]⟩
+  have e3 : (f el.name != f cfg.rmName) = (el.name != cfg.rmName) := by simp only [bne, e1]
+  simp only [conditionHolds, hasAttr, targeted, expired, attrValue, e1, e2, e3]
+
+theorem skip_name_free (el : Element) (n : List Char) : isSkip { el with name := n } = isSkip el := rfl
+
+theorem strategy_name_free (b : Bytes) (el : Element) (n : List Char) (st en : Token) :
+    createRange b { el with name := n } st en = createRange b el st en := rfl
+
+/-- pairing compares names and nothing else: it is the stack machine's (C10) -/
+theorem pairing_is_stack (ds de : List Char) (toks : List Token) : parse ds de toks = stackParse ds de toks :=
+  (C10.c10 ds de toks).1
+
 end Chiritori.Props.C18
